@@ -79,3 +79,54 @@ Example rollback_examples :
   rollbackEmbedded 7 0 0 11 3 0 0 0 = Ok (0, 0, Some 1, Some 0, Some [], Some 7) /\
   rollbackEmbedded 7 0 50 11 3 9 0 0 = Ok (0, 9, Some 1, Some 50, None, None).
 Proof. vm_compute. repeat split; reflexivity. Qed.
+
+(* ------------------------------------------------------------------ VM.generateEmbeddedReceive, translated whole.
+   Inputs: the verdict of GetAccountBlockByHash, the error of embedded.GetEmbeddedMethod, the send's amount, the two
+   results of method.ReceiveBlock (descendants, error), per descendant the verdict of vm.applySend (the loop runs over
+   the parallel list `items`, one entry per descendant), the error results of rollbackEmbedded / finalizeEmbedded at
+   each call site. Outputs: (methodErr, err, SequencerPopFront called, Save called, the error handed to
+   rollbackEmbedded, the amount handed to AddBalance, Done called, the descendants and the execution error handed to
+   finalizeEmbedded). NOT expressed by the translation: a lookup error other than ErrContractMethodNotFound leaves
+   method == nil and method.ReceiveBlock dereferences it (the hand model's LOther -> RPanic). *)
+Definition verdicts (items : list (Z * Z * Z)) : list Z := map (fun it => fst (fst it)) items.
+
+Theorem gen_receive_completes_or_rolls_back g gm rb11 rb12 amt ds me rb21 rb22 items f1 f2 r1 r2 ePop eSave eRb eAdd eDone eB eE :
+  generateEmbeddedReceive g gm rb11 rb12 amt ds me rb21 rb22 items f1 f2 = (r1, r2, ePop, eSave, eRb, eAdd, eDone, eB, eE) ->
+  ePop = Some 1 /\
+  ((g <> 0 /\ r2 = g /\ eSave = None /\ eRb = None /\ eAdd = None /\ eDone = None /\ eB = None /\ eE = None) \/
+   (g = 0 /\ eSave = Some 1 /\
+    ((eDone = Some 1 /\ eRb = None /\ eAdd = Some amt /\ eB = Some ds /\ eE = Some 0 /\
+      gm <> Err_constants_ErrContractMethodNotFound /\ me = 0 /\ Forall (fun v => v = 0) (verdicts items) /\ r1 = f1 /\ r2 = f2) \/
+     (eDone = None /\ eB = None /\ eE = None /\ exists e, eRb = Some e /\ e <> 0 /\
+      ((e = gm /\ gm = Err_constants_ErrContractMethodNotFound /\ eAdd = None) \/
+       (e = me /\ gm <> Err_constants_ErrContractMethodNotFound /\ eAdd = Some amt) \/
+       (me = 0 /\ gm <> Err_constants_ErrContractMethodNotFound /\ eAdd = Some amt /\ In e (verdicts items))))))).
+Proof.
+  unfold generateEmbeddedReceive. cbv zeta.
+  destruct (Z.eqb_spec g 0) as [Hg|Hg]; cbn [negb].
+  2:{ intros H; inversion H; subst. split; [reflexivity|]. left. repeat split; try reflexivity; assumption. }
+  destruct (Z.eqb_spec gm Err_constants_ErrContractMethodNotFound) as [Hn|Hn].
+  { intros H; inversion H; subst. split; [reflexivity|]. right. split; [reflexivity|]. split; [reflexivity|].
+    right. repeat split; try reflexivity. exists Err_constants_ErrContractMethodNotFound.
+    split; [reflexivity|]. split; [unfold Err_constants_ErrContractMethodNotFound; lia|]. left. repeat split; reflexivity. }
+  destruct (Z.eqb_spec me 0) as [Hm|Hm]; cbn [negb].
+  2:{ intros H; inversion H; subst. split; [reflexivity|]. right. split; [reflexivity|]. split; [reflexivity|].
+      right. repeat split; try reflexivity. exists me. split; [reflexivity|]. split; [assumption|].
+      right. left. repeat split; try reflexivity; assumption. }
+  induction items as [|[[v q1] q2] tl IH].
+  - intros H; inversion H; subst. split; [reflexivity|]. right. split; [reflexivity|]. split; [reflexivity|].
+    left. repeat split; try reflexivity; try assumption. constructor.
+  - destruct (Z.eqb_spec v 0) as [Hv|Hv]; cbn [negb].
+    + intros H. specialize (IH H). destruct IH as [Hp [IH|IH]]; (split; [exact Hp|]).
+      * left. exact IH.
+      * right. destruct IH as (Hg0 & Hs & [Hd|Hr]); (split; [exact Hg0|split; [exact Hs|]]).
+        -- left. destruct Hd as (A & B & C & D & E & F & G & Hall & I & J).
+           repeat split; try assumption. cbn. constructor; assumption.
+        -- right. destruct Hr as (A & B & C & e & He & Hne & Hcase).
+           repeat split; try assumption. exists e. split; [exact He|]. split; [exact Hne|].
+           destruct Hcase as [H1|[H2|H3]]; [left; exact H1|right; left; exact H2|right; right].
+           destruct H3 as (X & Y & Z0 & Hin). repeat split; try assumption. cbn. right. exact Hin.
+    + intros H; inversion H; subst. split; [reflexivity|]. right. split; [reflexivity|]. split; [reflexivity|].
+      right. repeat split; try reflexivity. exists v. split; [reflexivity|]. split; [assumption|].
+      right. right. repeat split; try reflexivity; try assumption. cbn. left. reflexivity.
+Qed.
